@@ -389,9 +389,35 @@ def r10(ctx, facts):
                    escapes[0][1] if escapes else c.span)
 
 
+def r11(ctx, facts):
+    r = ctx.rule("R11", "the stream-id bookkeeping of a connection is created once, when the connection's router starts, and never replaced or reset while the connection lives", floor=3)
+    from ..util import callers_keys
+    want = {
+        "ResponseHandlerMap::new": ["Connection::router{closure}"],
+        "StreamIdSet::new": ["ResponseHandlerMap::new"],
+        "OrphanageTracker::new": ["ResponseHandlerMap::new"],
+    }
+    for nm, allowed in want.items():
+        got = sorted(set(callers_keys(facts, "scylla::network::connection::" + nm)))
+        r.instance("constructed-only-by:" + nm, got == allowed,
+                   "%s is called from %s (must be %s only): a fresh bitmap / orphan tracker forgets which stream ids the server still owes an answer for - an abandoned request's id is "
+                   "handed out again and its late response reaches the new request" % (nm, got, allowed))
+    # no whole-value overwrite of the map or its trackers from within their own methods
+    for b in facts.find(r"^scylla::network::connection::(ResponseHandlerMap|StreamIdSet|OrphanageTracker)::[a-z_]+$"):
+        if b.path.endswith("::new"):
+            continue
+        for bb in sorted(b.live_blocks):
+            for st in b.stmts(bb):
+                if st[0] == "A" and st[1][0] == 1 and st[1][1] == ["*"]:
+                    r.fail("no-reset:" + fn_short(b.path), "`*self = ..` replaces the whole stream-id bookkeeping", b.stmt_span(st))
+            t = b.term(bb)
+            if t[0] == "call" and t[3][0] == 1 and t[3][1] == ["*"]:
+                r.fail("no-reset:" + fn_short(b.path), "`*self = ..` replaces the whole stream-id bookkeeping", b.term_span(bb))
+
+
 def check(ctx):
     facts = inline_view(ctx.facts("default"))
-    for fn in (r1_r2, r3_r4, r5, r6, r7, r8, r9, r10):
+    for fn in (r1_r2, r3_r4, r5, r6, r7, r8, r9, r10, r11):
         try:
             fn(ctx, facts)
         except AnchorLost as ex:
